@@ -9,3 +9,6 @@ Definition SPF : str := Eval compute in str_of_string "signac_statepoint.json".
 Definition SPT : str := Eval compute in str_of_string "signac_statepoint.json~".
 Definition DOCF : str := Eval compute in str_of_string "signac_job_document.json".
 Definition TMPPFX : str := Eval compute in str_of_string "._TMP_".
+Definition DOTSIG : str := Eval compute in str_of_string ".signac".
+Definition CACHEFN : str := Eval compute in str_of_string "statepoint_cache.json.gz".
+Definition CACHETMPFN : str := Eval compute in str_of_string "statepoint_cache.json.gz~".
